@@ -146,6 +146,30 @@ WireFtpParent == {
   <<"fp_end_bad_code", "fp_end_code", "FTPServerError">>, <<"fp_ok", "none", "none">>,
   Fx("pasv_range", <<"fp_pasv_port_overflow", "fp_data_connect", "OverflowError">>, <<"fp_pasv_port_overflow", "fp_pasv_parse", "ValueError">>) }
 
+(* the hostile URL is a file found through a listing, fetched with --preserve-permissions: once it is saved its parent
+   directory is listed for the mode bits, and THAT exchange goes wrong *)
+WireFtpPerm == {
+  <<"pm_ok", "none", "none">>,
+  <<"pm_data_refused", "pp_data_connect", "OSConnRefused">>, <<"pm_list_close", "pp_reply_readline", "NetworkError">>,
+  <<"pm_list_550", "pp_reply_code", "FTPServerError">>, <<"pm_listing_unknown", "pp_listing_parse", "ListingError">>,
+  <<"pm_listing_bad_date", "pp_listing_parse", "ValueError">>, <<"pm_pasv_garbage", "pp_pasv_parse", "ValueError">>,
+  <<"pm_end_bad_code", "pp_end_code", "FTPServerError">> }
+
+(* --retr-symlinks=off: symbolic-link lines of a listing become local links, made with the names the server sent *)
+WireFtpSymlink == {
+  <<"sl_ok", "none", "none">>, <<"sl_no_target", "f_symlink", "OSError">>, <<"sl_twice", "f_symlink", "OSError">>,
+  <<"sl_missing_dir", "f_symlink", "OSError">>, <<"sl_nul", "f_symlink", "ValueError">> }
+
+(* --continue with a partial local file: the server does not resume *)
+WireFtpContinue == {
+  <<"fc_ok", "none", "none">>,
+  Fx("continue_refused", <<"fc_rest_502", "f_writer_continue", "OSError">>, <<"fc_rest_502", "f_writer_continue", "ProtocolError">>),
+  Fx("continue_refused", <<"fc_rest_multiline_501", "f_writer_continue", "OSError">>, <<"fc_rest_multiline_501", "f_writer_continue", "ProtocolError">>) }
+WireHttpContinue == {
+  <<"hc_206", "none", "none">>,
+  Fx("continue_refused", <<"hc_200_range_ignored", "h_writer_continue", "OSError">>, <<"hc_200_range_ignored", "h_writer_continue", "ProtocolError">>),
+  Fx("continue_refused", <<"hc_416", "h_writer_continue", "OSError">>, <<"hc_416", "h_writer_continue", "ProtocolError">>) }
+
 Segs == {"whole", "bytes1", "lines"}
 
 \* raw deflate delivered one byte at a time: zlib accepts the first piece as a zlib header and fails on the second, and
@@ -157,6 +181,8 @@ WireOf(tab, ctx, segs) == {[mode |-> "wire", ctx |-> ctx, cls |-> SegExpect(r, g
 WireCases == WireOf(WirePage, "page", Segs) \cup WireOf(WireRobots, "robots", Segs)
              \cup WireOf(WireFtp, "ftp", {"whole", "bytes1"}) \cup WireOf(WireFtpListing, "ftplist", {"whole", "bytes1"})
              \cup WireOf(WireFtpParent, "ftpparent", {"whole"})
+             \cup WireOf(WireFtpPerm, "ftpperm", {"whole"}) \cup WireOf(WireFtpSymlink, "ftpsym", {"whole"})
+             \cup WireOf(WireFtpContinue, "ftpcont", {"whole"}) \cup WireOf(WireHttpContinue, "httpcont", {"whole"})
 
 WireWellFormed == \A c \in WireCases : <<c.site, c.kind>> = None \/ (c.site \in Sites /\ c.kind \in Kinds)
 
